@@ -39,6 +39,7 @@ type Ctx struct {
 	Tables      []map[string]any
 	Rules       map[string]string // rule id -> one-line description
 	ruleOrder   []string
+	Extra       map[string]any // additional coverage keys (thorough tier)
 }
 
 func NewCtx(p *Prog, prop, tier string) *Ctx {
@@ -275,6 +276,9 @@ func (c *Ctx) Finish(verifDir string, seed int, start time.Time, explanation str
 	}
 	if len(c.Tables) > 0 {
 		cov["decision_tables"] = c.Tables
+	}
+	for k, v := range c.Extra {
+		cov[k] = v
 	}
 	ev := map[string]any{
 		"property_id": c.Prop,
